@@ -69,6 +69,10 @@ def manager_case(ctx, lines, expect, spec, rng):
              sample=dict(kind=spec["kind"], params=spec["params"], chunks=spec["chunks"], granted=run.grants[:10]))
     ctx.count(f"manager_{spec['kind']}")
     ctx.count("queries_snapshotted", 2 * len(spec["chunks"]))
+    if run.query_exc:
+        ctx.violate(f"C03/{cname}.{meth}/raises", f"{cname}.{meth} raised {run.query_exc[0][1]} (chunk {run.query_exc[0][0]})",
+                    dict(spec=spec, oracle="purity"))
+        return
     if run.purity:
         ctx.violate(f"C03/{cname}.{meth}/state-changed",
                     f"{cname}.{meth} changed attributes {run.purity[0][1]} (chunk {run.purity[0][0]})",
@@ -122,9 +126,14 @@ def strategy_history(ctx, rng, name, mgr_kind, default_mgr=False):
     ctx.count(f"strategy_{name}")
     ctx.count(f"strategy_manager_{payload['manager']}")
     ctx.count("extra_queries_inserted", sum(len(v) for v in extra.values()))
+    key_cls = "CognitiveDualQueryStrategy" if cognitive else name
+    if prob_a and prob_a[0][1].startswith("query raised"):
+        ctx.violate(f"C03/{key_cls}.query/raises-after-earlier-calls",
+                    f"{name}+{payload['manager']}: query raised in a plain query/update history: {prob_a[0][1]} (chunk {prob_a[0][0]})",
+                    dict(payload, oracle="purity"))
+        return
     if prob_a:
         ctx.count("history_cut_short_by_update_exception(C10 topic)")
-    key_cls = "CognitiveDualQueryStrategy" if cognitive else name
     # (1) query purity inside run A: snapshot after a query == snapshot after the preceding update
     for j in range(2, len(snaps_a), 2):
         d = S.snap_diff(snaps_a[j - 1], snaps_a[j], lazy=True)
@@ -154,7 +163,7 @@ def strategy_history(ctx, rng, name, mgr_kind, default_mgr=False):
 def correspond(ctx):
     rng = ctx.rng
     lines, expect = [], []
-    per_kind = 25 if not ctx.thorough else 250
+    per_kind = 60 if not ctx.thorough else 400
     for kind in S.MANAGER_KINDS + S.BASELINE_KINDS:
         for t in range(per_kind):
             spec = S.gen_case(rng, kind, boundary=(t % 3 == 0), n=rng.randint(2, 40))
@@ -167,7 +176,7 @@ def correspond(ctx):
     names, missing = S.strategy_grid()
     if missing:
         ctx.broken.append(f"classes exported by skactiveml.stream that the C03 grid does not cover: {missing}")
-    reps = 2 if not ctx.thorough else 14
+    reps = 4 if not ctx.thorough else 25
     pairs = S.grid_pairs()
     for name, mk in pairs:
         for _ in range(reps if mk is not None else 3 * reps):
@@ -220,7 +229,7 @@ def replay(payload):
         make = lambda: S.make_strategy(r["strategy"], mk, r["budget"], r["seed"], ffb=r["ffb"], default_mgr=(mk is None))
         oa, sa, _, _ = S.run_history(make, ops)
         ob, sb, _, _ = S.run_history(make, ops, extra_at=extra)
-        bad = oa != ob or any(S.snap_diff(a, b, lazy=True) for a, b in zip(sa, sb))
+        bad = oa != ob or any(S.snap_diff(a, b, lazy=True) for a, b in zip(sa, sb)) or any("raised" in str(o[1]) for o in oa if o[0] != "u")
         for j in range(2, len(sa), 2):
             d = S.snap_diff(sa[j - 1], sa[j], lazy=True)
             if d:
